@@ -520,26 +520,6 @@ def find (root : Node) (start : Pos) (path : Str) (single strict : Bool) : FindR
         | [p] => .one (some p)
         | p :: _ :: _ => if strict then .err .lookup else .one (some p)
 
-/-- `find` when the path argument is not a `str`: `pathexpr` joins an iterable of segments with
-    `/`, but the "matched multiple elements" message is built with `"...%r..." % path`, which
-    raises `TypeError` when `path` is a tuple of other than one element (`fmtOK = false`). -/
-def findWith (fmtOK : Bool) (root : Node) (start : Pos) (path : Str) (single strict : Bool) : FindRes :=
-  match tokenize path with
-  | .error e => .err e
-  | .ok ops =>
-    match evalOps root strict ops start with
-    | .error e => .err e
-    | .ok res =>
-      if !single then .many res
-      else
-        match res with
-        | [] => .one none
-        | [p] => .one (some p)
-        | p :: _ :: _ => if strict then (if fmtOK then .err .lookup else .err .type) else .one (some p)
-
-theorem findWith_true (root : Node) (start : Pos) (path : Str) (single strict : Bool) :
-    findWith true root start path single strict = find root start path single strict := rfl
-
 /-! ## `Element.fq_name` -/
 
 /-- `str(n)` for a non-negative int -/
@@ -548,11 +528,23 @@ def natStr (n : Nat) : Str :=
 termination_by n
 decreasing_by omega
 
-/-- the name branch of `_path_segment` -/
+/-- the name branch of `_path_segment`:
+    `name.replace("/", "\\/").replace("[", "\\[")`, then every backslash that stands directly
+    before `.` or `]` is doubled (`.replace("\\.", "\\\\.").replace("\\]", "\\\\]")`).  The
+    backslashes inserted by the first two replaces stand before `/` or `[`, so the chain is one
+    pass over the name with one character of lookahead. -/
+def escapeBody : Str → Str
+  | [] => []
+  | c :: r =>
+    (if c == '/' then ['\\', '/']
+     else if c == '[' then ['\\', '[']
+     else if c == '\\' && (r.head? == some '.' || r.head? == some ']') then ['\\', '\\']
+     else [c]) ++ escapeBody r
+
 def escapeName (name : Str) : Str :=
   if name == ['.'] then ['\\', '.']
   else if name == ['.', '.'] then ['\\', '.', '\\', '.']
-  else name.flatMap (fun c => if c == '/' then ['\\', '/'] else if c == '[' then ['\\', '['] else [c])
+  else escapeBody name
 
 /-- what `fq_name` iterates over below the root: ListSlots (named by position) and elements
     (with the kind of the container that holds them and their position among its children) -/
